@@ -1,5 +1,6 @@
 SPECIFICATION Spec
 CONSTANT Grid <- GridMutant
+CONSTANT ShuffleAll = TRUE
 CONSTANT RetainedCells <- MutRetainedCells
 INVARIANT BurnExact
 CHECK_DEADLOCK FALSE
